@@ -65,6 +65,7 @@ pub fn units_derived() {
     unit_ok_derived!(ZU<3>);
     unit_ok_derived!([Z32; 2], Z32);
     unit_ok_derived!(ZE, u8, u16, bool);
+    unit_ok_derived!(ZP, u8, u64);
     unit_ok_derived!(crate::nm::base::Z, u32, u16);
     unit_ok_derived!(crate::nm::repr::Z, u32, u16);
 }
